@@ -160,9 +160,22 @@ func stdVerdict(err error) refinflate.Verdict {
 func selfCheck(z, dict []byte, ref *refinflate.Result) error {
 	out, err, consumed := stdInflate(z, dict)
 	if v := stdVerdict(err); v != ref.Verdict {
+		// compress/flate does not decode a lit/len symbol until as many bits as its
+		// end-of-block code has (<= 15) are available; a defect whose symbol starts
+		// within the last 15 bits of the input is therefore "unexpected EOF" to it.
+		if v == refinflate.Truncated && ref.Verdict == refinflate.Corrupt && int64(len(z))*8-ref.DefectBit < 15 {
+			return nil
+		}
 		return &oracleError{fmt.Sprintf("verdict: ref=%v (%s) std=%v (%v)", ref.Verdict, ref.Reason, v, err)}
 	}
-	if !bytes.Equal(out, ref.Out) {
+	if ref.Verdict == refinflate.Truncated {
+		// compress/flate does not decode a symbol until as many bits as its end-of-block
+		// code has are available, so on a truncated stream it may stop a few symbols
+		// earlier than a bit-serial decoder: its output is a prefix of the reference's.
+		if !bytes.HasPrefix(ref.Out, out) {
+			return &oracleError{fmt.Sprintf("output on truncated input: std's %d bytes are not a prefix of ref's %d bytes", len(out), len(ref.Out))}
+		}
+	} else if !bytes.Equal(out, ref.Out) {
 		return &oracleError{fmt.Sprintf("output: ref %d bytes, std %d bytes (verdict %v)", len(ref.Out), len(out), ref.Verdict)}
 	}
 	if ref.Verdict == refinflate.Valid && consumed != ref.EndByte {
